@@ -174,7 +174,7 @@ def run_cbmc_group(g, keep=False):
         if '-I' + os.path.join(wd, 'annot') not in inc:
             inc.append('-I' + os.path.join(wd, 'annot'))
     inc += ['-I' + os.path.join(VERIF, 'harness'), '-I' + os.path.join(VERIF, 'contracts'),
-           '-I' + REPO, '-I' + os.path.join(REPO, 'include'), '-I' + os.path.join(REPO, 'src')]
+           '-I' + REPO, '-I' + os.path.join(REPO, 'include'), '-I' + os.path.join(REPO, 'src'), '-I' + os.path.join(REPO, 'codegen')]
     if any('random' in x for x in [g.harness] + g.defines + g.includes) or 'codegen' in g.includes:
         inc.append('-I' + codegen_dir())
     cmd = ['goto-cc'] + inc + ['-D' + GUARD, '-D_POSIX_C_SOURCE=200809L'] + \
